@@ -253,6 +253,9 @@ func v1Setup() {
 // ks.v1.file: arbitrary bytes as every kind of key file of a filesystem keystore, read through its API.
 func targetKsV1File(data []byte) (vs hx.Vs) {
 	v1Setup()
+	if v1Dir == "" {
+		panic("harness: v1 scratch directory not initialised")
+	}
 	for _, n := range v1Names {
 		p := filepath.Join(v1Dir, n)
 		if err := os.MkdirAll(filepath.Dir(p), 0o700); err != nil {
